@@ -77,6 +77,9 @@ type TRScenario struct {
 	FaultCache string `json:"fault_cache,omitempty"` // importer cache name the fault applies to ("" = all)
 	// Importers > 1: that many importers (same cache names) import concurrently from one Export handler.
 	Importers int `json:"importers,omitempty"`
+	// Logger / LogMask: HTTPTransfer.Logger on both sides (shape as in shapeLogger; 0 with Logger: full).
+	Logger  bool `json:"logger,omitempty"`
+	LogMask int  `json:"log_mask,omitempty"`
 
 	// index
 	Index *IndexScenario `json:"index,omitempty"`
